@@ -6,6 +6,7 @@ import (
 	"io"
 	"math"
 	"os"
+	"sort"
 	"sync"
 	"time"
 
@@ -446,14 +447,17 @@ func (fs *fsMutable) ReadDir(
 		return
 	}
 
-	var i uint64 = 1
+	// A listing is resumed from the offset of the last entry returned: entries must come in the same order on
+	// every call (the iteration order of a map is not), and the offset of an entry is its rank in that order.
+	ordered := make([]*fuseutil.Dirent, 0, len(children))
 	for _, c := range children {
-		i++
-		if i < uint64(offset) {
-			continue
-		}
-		child := *c
-		child.Offset = fuseops.DirOffset(i) // This is where dirOffset matters..
+		ordered = append(ordered, c)
+	}
+	sort.Slice(ordered, func(i, j int) bool { return ordered[i].Inode < ordered[j].Inode })
+
+	for i := offset; i < len(ordered); i++ {
+		child := *ordered[i]
+		child.Offset = fuseops.DirOffset(i + 1) // This is where dirOffset matters..
 		n := fuseutil.WriteDirent(op.Dst[op.BytesRead:], child)
 		if n == 0 {
 			break
